@@ -298,15 +298,16 @@ C04Solve(e) ==
 DoSolvePressure(e) ==
   /\ e.ev = "SolvePressure"
   /\ LET raised == e.raised # ""
-         c04 == IF ~raised /\ pm # None /\ Want("C04") THEN C04Solve(e) ELSE [fails |-> {}, kf |-> {}, hits |-> {}, rejected |-> FALSE]
-     IN EmitV(e, c04.fails \cup SetIf(raised, "C04.solve_raised"), {}, c04.hits, {}, c04.rejected)
+         oor == ~raised /\ e.finite /\ ~e.in_range       \* outside the fixed-point range of the oracle: not judged
+         c04 == IF ~raised /\ ~oor /\ pm # None /\ Want("C04") THEN C04Solve(e) ELSE [fails |-> {}, kf |-> {}, hits |-> {}, rejected |-> FALSE]
+     IN EmitV(e, c04.fails \cup SetIf(raised, "C04.solve_raised"), {}, c04.hits, {}, c04.rejected \/ oor)
   /\ UNCHANGED <<m, fr, env, fm, bo, pm, sol, prev>>
 
 DoPressureLin(e) ==
   /\ e.ev = "PressureLin"
   /\ LET raised == e.raised # ""
-         bad == IF raised THEN {} ELSE {c \in DOMAIN e.p3 : ~Close(e.p3[c], Mul(e.a, e.p1[c]) + Mul(e.b, e.p2[c]), 30 + Abs(e.p3[c]) \div 20000)}
-     IN EmitV(e, SetIf(bad # {}, "C04.linearity") \cup SetIf(raised, "C04.linearity_raised"), {}, {"C04.linearity"}, {}, FALSE)
+         bad == IF raised \/ ~e.in_range THEN {} ELSE {c \in DOMAIN e.p3 : ~Close(e.p3[c], Mul(e.a, e.p1[c]) + Mul(e.b, e.p2[c]), 30 + Abs(e.p3[c]) \div 20000)}
+     IN EmitV(e, SetIf(bad # {}, "C04.linearity") \cup SetIf(raised, "C04.linearity_raised"), {}, {"C04.linearity"}, {}, ~raised /\ ~e.in_range)
   /\ UNCHANGED <<m, fr, env, fm, bo, pm, sol, prev>>
 
 (******************************* two-run equivariance (C06, C07) **********)
